@@ -736,7 +736,7 @@ func (g *c11Gen) mutate(s string) string {
 				b = append(b[:j], append([]byte(c11Boundary[g.r.Intn(len(c11Boundary))]), b[k:]...)...)
 			}
 		case 7: // delete a span
-			q := p + g.r.Intn(1+minInt(8, len(b)-p))
+			q := p + g.r.Intn(1+c11MinInt(8, len(b)-p))
 			b = append(b[:p], b[q:]...)
 		default: // change letter case
 			if b[p] >= 'a' && b[p] <= 'z' {
@@ -749,7 +749,7 @@ func (g *c11Gen) mutate(s string) string {
 	return string(b)
 }
 
-func minInt(a, b int) int {
+func c11MinInt(a, b int) int {
 	if a < b {
 		return a
 	}
